@@ -16,8 +16,14 @@ ROOT = os.path.dirname(os.path.dirname(os.path.abspath(__file__)))
 RLIMIT = {'quick': 30_000_000, 'thorough': 600_000_000}
 
 
+def _quiet():
+    import logging
+    logging.disable(logging.CRITICAL)
+
+
 def _run_one(job):
     modname, cname, tier, seed = job
+    _quiet()
     try:
         from . import harness
         mod = importlib.import_module(modname)
@@ -32,6 +38,67 @@ def _run_one(job):
         return dict(contract=cname, target='?', clauses={}, faults=[f'crash: {e!r}\n{traceback.format_exc()[-1500:]}'],
                     unsupported=[], paths=0, feasible_paths=0, crosscheck=dict(compared=0, mismatches=[]), functions={},
                     trusted=[], solver_calls=0, solver_s=0, wall_s=0, exists=True)
+
+
+WATCHDOG_S = {'quick': 900, 'thorough': 7200}
+
+
+def _child(job, conn):
+    r = _run_one(job)
+    try:
+        conn.send(r)
+    except Exception as e:  # noqa
+        conn.send(dict(contract=job[1], target='?', clauses={}, faults=[f'result not picklable: {e!r}'], unsupported=[], paths=0,
+                       feasible_paths=0, crosscheck=dict(compared=0, mismatches=[]), functions={}, trusted=[], solver_calls=0,
+                       solver_s=0, wall_s=0, exists=True))
+    conn.close()
+
+
+def run_jobs(joblist, jobs_n, watchdog_s):
+    """every contract in its own process, at most jobs_n at a time, each under a wall-clock watchdog (a solver call that
+    ignores its own timeout must not hang the check: the contract is then reported UNDECIDED)"""
+    ctx = mp.get_context('fork')
+    pending = list(enumerate(joblist))
+    running = {}
+    results = [None] * len(joblist)
+    while pending or running:
+        while pending and len(running) < jobs_n:
+            i, job = pending.pop(0)
+            pc, cc = ctx.Pipe(duplex=False)
+            p = ctx.Process(target=_child, args=(job, cc))
+            p.start()
+            cc.close()
+            running[i] = (p, pc, time.time(), job)
+        done = []
+        for i, (p, pc, t0, job) in running.items():
+            if pc.poll(0.02):
+                try:
+                    results[i] = pc.recv()
+                except EOFError:
+                    results[i] = None
+                p.join(5)
+                done.append(i)
+            elif not p.is_alive():
+                p.join()
+                done.append(i)
+            elif time.time() - t0 > watchdog_s:
+                p.kill()
+                p.join()
+                results[i] = dict(contract=job[1], target='?', clauses={'watchdog': dict(
+                    status='undecided', paths=0, solver_s=0.0, witness=None, confirmed=False, backend='-',
+                    reason=f'contract did not finish within {watchdog_s}s (killed)')}, faults=[], unsupported=[], paths=0,
+                    feasible_paths=0, crosscheck=dict(compared=0, mismatches=[]), functions={}, trusted=[], solver_calls=0,
+                    solver_s=0, wall_s=watchdog_s, exists=True)
+                done.append(i)
+        for i in done:
+            p, pc, t0, job = running.pop(i)
+            if results[i] is None:
+                results[i] = dict(contract=job[1], target='?', clauses={}, faults=[f'worker died (exit {p.exitcode})'],
+                                  unsupported=[], paths=0, feasible_paths=0, crosscheck=dict(compared=0, mismatches=[]),
+                                  functions={}, trusted=[], solver_calls=0, solver_s=0, wall_s=0, exists=True)
+        if not done:
+            time.sleep(0.02)
+    return results
 
 
 def load_known(prop):
@@ -57,11 +124,9 @@ def run_property(prop, tier='quick', seed=0, jobs=None, update_inventory=False, 
         contracts = [c for c in contracts if not getattr(c, 'thorough_only', False)]
     jobs_n = jobs or min(16, max(1, len(contracts)))
     joblist = [(modname, c.__name__, tier, seed) for c in contracts]
-    if jobs_n == 1 or len(joblist) == 1:
-        results = [_run_one(j) for j in joblist]
-    else:
-        with mp.get_context('fork').Pool(jobs_n) as pool:
-            results = pool.map(_run_one, joblist, chunksize=1)
+    # longest first so that the pool drains evenly
+    joblist.sort(key=lambda j: -getattr(getattr(mod, j[1]), 'cost', 1))
+    results = run_jobs(joblist, jobs_n, WATCHDOG_S[tier])
     return finish(prop, tier, seed, mod, results, t0, update_inventory, only)
 
 
